@@ -373,8 +373,12 @@ def run(args):
                 logger.warning("--plot_relative_time is set for multiple "
                                "trajectories without --ref. "
                                "Using the lowest timestamp as zero time.")
-            start_time = min(traj.timestamps[0]
-                             for _, traj in trajectories.items())
+            stamped = [
+                traj for traj in trajectories.values()
+                if isinstance(traj, trajectory.PoseTrajectory3D)
+            ]
+            if stamped:
+                start_time = min(traj.timestamps[0] for traj in stamped)
 
         cmap_colors = None
         if SETTINGS.plot_multi_cmap.lower() != "none":
